@@ -82,6 +82,11 @@ CHECKS = {
             "For ~800 (quick) / ~4600 (thorough) accepted schemas (repository test schemas, S-verif, the C19 document family): the honest generic adapter passes; each single violation {adjacent contexts swapped, non-null property / one neighbour / true coercion for a vertex-less context} at each of 3 positions of each property (incl. __typename), each in-scope edge and each declared implements pair makes the checker panic. A checker run that passes is a violation, distinguishing 'never called the resolver' from 'called it and missed the fault'.",
             "Faults are committed by a wrapper of the harness's generic adapter; dropped contexts are injected too but only counted (the property does not list them).",
             "DESIGN.md §4 C25"),
+    "C26": ("exploration",
+            "bounded-exhaustive enumeration of schemas over a name alphabet built to collide / need escaping after the generator's name mangling and over every built-in type shape; each accepted schema through the real generate_rust_stub; every stub type-checked (lib + tests) by rustc in a scratch workspace",
+            "424 (quick) / ~10k (thorough) schemas: every single position (type names, properties, edge, entrypoints, parameter) x 18 names (case variants, underscores, strict / reserved / weak keywords, `_`), pairs of positions x pairs of names, every built-in scalar incl. ID x 8 nullability / list shapes as property and as parameter type, schemas without edges / properties. A stub that is written must pass cargo check --tests against /repo/trustfall; a generator panic other than its documented refusal is a violation.",
+            "'Compiles' is decided by type-checking (no linking) with the sandbox toolchain, edition 2021 as in the repository's own stubgen test. Three known findings (ID type, consecutive-capitals type names, entrypoints colliding after snake-casing).",
+            "DESIGN.md §4 C26"),
     "C06": ("model_checking",
             "explicit-state search over candidate values: BFS closure from ~1300 seed states, every transition calls the real intersect / exclude_single_value / normalize and is compared with a reference denotation (bitmask over a probe universe)",
             "All seed candidates (Impossible, All, Single, Multiple up to 3 values in both orders, every Range over the bound alphabet with every bound kind and null inclusion) for an integer sort (signed/unsigned boundaries) and a string sort; every ordered pair is intersected, every value excluded, every state normalised; the state space is closed under these operations (no new states appear), so the search is a fixpoint.",
